@@ -139,7 +139,13 @@ func (p *Path) replaying() bool { return p.pos < len(p.prefix) }
 
 func (p *Path) setModel(m Model) {
 	p.model = m
-	p.ev = newEvalCtx(m)
+	p.ev = p.newEval(m)
+}
+
+func (p *Path) newEval(m Model) *evalCtx {
+	e := newEvalCtx(m)
+	e.known = p.em.ufApps
+	return e
 }
 
 func (p *Path) evalBool(t *Term) bool { return p.ev.evalBool(t) }
@@ -483,7 +489,7 @@ func (p *Path) Inconclusive(msg string) {
 }
 
 func (p *Path) violation(id, where, msg string, m Model) {
-	ev := newEvalCtx(m)
+	ev := p.newEval(m)
 	v := &Violation{Harness: p.run.Name, ID: id, Where: where, Msg: msg, Inputs: map[string]string{}}
 	for _, in := range p.inputs {
 		var s string
@@ -581,7 +587,7 @@ func (p *Path) Concretize(t *Term, what string) uint64 {
 			p.run.note(&p.run.Inconclusive, "concretisation of "+what+" unknown at "+p.whereHint())
 			break
 		}
-		v := valOf(newEvalCtx(m))
+		v := valOf(p.newEval(m))
 		p.fork(Decision{'c', v}, m)
 		seen = append(seen, v)
 		if len(seen) > p.cfg.ConcCap {
@@ -757,6 +763,11 @@ func (w *World) Explore(h *harnessFn, cfg *Config) *HarnessRun {
 					if err != nil {
 						run.note(&run.Inconclusive, "cannot start solver: "+err.Error())
 						proc = nil
+					}
+				}
+				if proc != nil && cfg.BudgetSec > 0 && time.Since(t0) > 3*time.Duration(cfg.BudgetSec)*time.Second {
+					if atomic.CompareAndSwapInt32(&run.stop, 0, 1) {
+						run.note(&run.Inconclusive, fmt.Sprintf("harness wall-clock budget of %ds exhausted", 3*cfg.BudgetSec))
 					}
 				}
 				if proc != nil {
